@@ -100,6 +100,7 @@ type Env struct {
 	threads  []*Thread
 	byGoid   map[uint64]*Thread
 	wake     chan struct{}
+	root     uint64
 	events   uint64
 	steps    int
 	last     *Thread
@@ -179,6 +180,9 @@ func (e *Env) hook(n string, k kind, m interface{}) {
 		return
 	}
 	g := goid()
+	if g == e.root {
+		return // harness code running in the scheduler goroutine (oracles) never parks
+	}
 	e.mu.Lock()
 	if e.poisoned {
 		e.mu.Unlock()
@@ -414,6 +418,7 @@ func (e *Env) describeThreads() string {
 // run is the scheduler loop; it is the root goroutine of the bubble.
 func (e *Env) run(body func(*Env)) {
 	e.start = time.Now()
+	e.root = goid()
 	e.wake = make(chan struct{}, 1)
 	e.byGoid = map[uint64]*Thread{}
 	if e.Cfg.Tick == 0 {
